@@ -113,6 +113,52 @@ def gen_case(rng, cid):
     return c
 
 
+ASSUMPTIONS.append('groups: in about 40% of the histories one to three further Timers (other timeouts / arguments / auto_restart, own stop/restart '
+                   'histories; created at the same instant or later, before or after the first; some aimed at the first one\'s expiry instants; some '
+                   'with equal arguments) live in the same Environment, in half of the groups all with ONE callback function (a module-level '
+                   'function, told apart by a keyword argument) as a TCP sender uses one bound method for all its timers; callbacks may stop / restart '
+                   'ANOTHER timer of the group. Every timer is replayed through the model as a history of its own and judged by the oracle on its own calls')
+
+
+def gen_group(rng, cid):
+    """the timer under test and, in about 40% of the cases, one to three PEER timers alive in the same Environment.  "A Timer
+    created at t0 invokes its callback with the given arguments exactly once at t0 + timeout ... unless IT is stopped or
+    restarted first": what is done to, or fires on, another Timer - with another or the same callback, the same or other
+    arguments, the same or another expiry instant - is no stop/restart of this one."""
+    c = gen_case(rng, cid)
+    if c['timeout'] <= 0 or rng.random() < 0.6:
+        return c
+    c['peers'] = []
+    n = rng.choice([1, 1, 2, 3])
+    for j in range(n):
+        p = gen_case(rng, f'{cid}.p{j + 1}')
+        while p['timeout'] <= 0:                                       # (refusals by the constructor: single timers only)
+            p = gen_case(rng, f'{cid}.p{j + 1}')
+        span = p['horizon'] - p['t0']
+        p['dt'] = 0 if rng.random() < 0.4 else gen_delay(rng)         # created `dt` after the first timer
+        if rng.random() < 0.3 and c['timeout'] > p['dt']:
+            p['timeout'] = c['timeout'] - p['dt']                      # its first expiry falls on the first timer's
+        elif rng.random() < 0.15:
+            p['timeout'] = c['timeout']
+        if rng.random() < 0.3:
+            p['args'] = c['args']                                      # equal callback arguments
+        p['first'] = p['dt'] == 0 and rng.random() < 0.4               # constructed before the first timer
+        del p['t0']
+        p['horizon'] = c['t0'] + p['dt'] + span
+        c['peers'].append(p)
+    # calls from a callback onto ANOTHER timer of the group (member 0 is the first timer)
+    for k, m in enumerate([c] + c['peers']):
+        for ops in m['cb']:
+            for op in list(ops):
+                if rng.random() < 0.25:
+                    other = rng.choice([x for x in range(n + 1) if x != k])
+                    ops.append([op[0] + '@'] + op[1:] + [other])
+                    if rng.random() < 0.5:
+                        ops.remove(op)
+    c['shared_cb'] = rng.random() < 0.5
+    return c
+
+
 # ------------------------------------------------------------------------------------------------
 # running a case on the real Timer
 
@@ -128,9 +174,28 @@ def argspec(a):
     return f'S{a}'
 
 
+_CURRENT = [None]
+
+
+def shared_callback(*a, **kw):
+    """ONE callback function for every timer of every group of this process (groups with `shared_cb`): the firing is handed
+    to the timer named by the keyword argument `who` that the harness gave to that Timer"""
+    lead = _CURRENT[0]
+    who = kw.pop('who', None)
+    if lead is None or not isinstance(who, int) or not 0 <= who < len(lead.members):
+        kw['who'] = who
+        (lead.members[0] if lead else None).callback(*a, **kw)      # not attributable: wrong arguments at the first timer
+        return
+    lead.members[who].callback(*a, **kw)
+
+
 class Run:
-    def __init__(self, case):
+    def __init__(self, case, lead=None, idx=0):
         self.case = case
+        self.lead = lead or self  # the Run of the first timer of the group (the one that owns the Environment and steps it)
+        self.idx = idx
+        self.members = [self]
+        self.created = False
         self.labels = []        # input lines for the model
         self.impl = []          # the implementation's answer to each label
         self.events = []        # model-free history for the oracle
@@ -195,6 +260,17 @@ class Run:
         self.in_cb = True
         try:
             for op in ops:
+                if op[0].endswith('@'):
+                    # a call onto ANOTHER timer of the group, made from this timer's callback: for that timer it is a call
+                    # from outside (its own history gets the label)
+                    other = self.lead.members[op[-1]] if op[-1] < len(self.lead.members) else None
+                    if other is not None and other is not self and other.created:
+                        self.in_cb = False
+                        try:
+                            other.do([op[0][:-1]] + op[1:-1])
+                        finally:
+                            self.in_cb = True
+                    continue
                 self.do(op)
         finally:
             self.in_cb = False
@@ -206,45 +282,80 @@ class Run:
                 self.do(op)
 
     # ---- the run ------------------------------------------------------------------------------
-    def run(self):
-        c = self.case
-        env = self.env = Environment(c['t0'])
+    def create(self):
+        """construct the timer at the current instant (with the actors that are started before / after it)"""
+        c, env = self.case, self.env
         for a in c['actors']:
             if a['pos'] == 'before':
                 env.process(self.actor(a['script']))
-        self.labels.append(f'create {bits(c["t0"])} {bits(c["timeout"])} {1 if c["auto"] else 0} {argspec(c["args"])}')
+        self.t0 = env.now
+        self.labels.append(f'create {bits(env.now)} {bits(c["timeout"])} {1 if c["auto"] else 0} {argspec(c["args"])}')
         try:
-            self.timer = Timer(env, c['timeout'], self.callback, auto_restart=c['auto'], args=c['args'])
+            if self.lead.case.get('shared_cb'):
+                self.timer = Timer(env, c['timeout'], shared_callback, auto_restart=c['auto'], args=c['args'], kwargs={'who': self.idx})
+            else:
+                self.timer = Timer(env, c['timeout'], self.callback, auto_restart=c['auto'], args=c['args'])
         except BaseException as x:
             self.impl.append(f'RAISED {type(x).__name__}' if isinstance(x, ValueError) else f'X {type(x).__name__}')
             self.events.append(('exc', env.now, type(x).__name__, 'create'))
-            self.end, self.drained = env.now, True
-            return self
+            return False
+        self.created = True
         self.track()
         self.impl.append(self.snap())
-        self.events.append(('create', c['t0'], c['timeout'], c['auto'], c['args']))
+        self.events.append(('create', env.now, c['timeout'], c['auto'], c['args']))
         for op in c['direct']:
             self.do(op)
         for a in c['actors']:
             if a['pos'] == 'after':
                 env.process(self.actor(a['script']))
-        steps = 0
-        while env.peek() <= c['horizon'] and steps < STEP_BUDGET:
-            steps += 1
-            if not self.one_step():
-                break
-        self.end = env.now
-        self.drained = not (env.peek() <= c['horizon'])
+        return True
+
+    def create_later(self, dt):
+        yield self.env.timeout(dt)
+        self.create()
+
+    def run(self):
+        c = self.case
+        env = self.env = Environment(c['t0'])
+        _CURRENT[0] = self
+        peers = [Run(pc, self, j + 1) for j, pc in enumerate(c.get('peers') or [])]
+        self.members = [self] + peers
+        for m in peers:
+            m.env = env
+            if m.case['dt'] == 0 and m.case.get('first'):
+                m.create()
+        ok = self.create()
+        horizon = c['horizon']
+        if ok:
+            for m in peers:
+                horizon = max(horizon, m.case['horizon'])
+                if m.case['dt'] == 0 and not m.case.get('first'):
+                    m.create()
+                elif m.case['dt'] != 0:
+                    env.process(m.create_later(m.case['dt']))
+            steps = 0
+            while env.peek() <= horizon and steps < STEP_BUDGET * len(self.members):
+                steps += 1
+                if not self.one_step():
+                    break
+        for m in self.members:
+            m.end = env.now
+            m.drained = (not ok) or not (env.peek() <= horizon)
         return self
 
-    def one_step(self):
-        env = self.env
-        pre = [(p.target, p.is_alive) for p in self.procs]
-        npre = len(pre)
-        now0 = bits(env.now)
-        mark = len(self.labels)
+    def pre(self):
+        self._pre = [(p.target, p.is_alive) for p in self.procs]
+        self._mark = len(self.labels)
         self.fires_now = []
         self.cb_ops = []
+
+    def one_step(self):
+        """one kernel step; every timer of the group that exists reads its own transitions off its own processes"""
+        env = self.env
+        live = [m for m in self.members if m.created]
+        for m in live:
+            m.pre()
+        now0 = bits(env.now)
         err = None
         try:
             env.step()
@@ -252,8 +363,17 @@ class Run:
             return False
         except BaseException as x:      # noqa
             err = x
-            self.events.append(('exc', env.now, type(x).__name__, 'step'))
         ticked = bits(env.now) != now0
+        for m in live:
+            m.post(err, ticked)
+        return err is None
+
+    def post(self, err, ticked):
+        env = self.env
+        pre, mark = self._pre, self._mark
+        npre = len(pre)
+        if err is not None:
+            self.events.append(('exc', env.now, type(err).__name__, 'step'))
         # which timer process made a transition in this kernel step?
         trans = []
         for i in range(npre):
@@ -284,7 +404,6 @@ class Run:
         if err is not None and not trans:
             self.labels.append('tick 0')        # an exception that no timer action explains: the model will not follow
             self.impl.append(f'X {type(err).__name__}')
-        return err is None
 
     def tick_snap(self, mark):
         """the snapshot right after the clock advanced = the previous snapshot with the new `now`
@@ -392,9 +511,11 @@ def run(ctx):
         cases += [d['case'] for d in (j.get('broken_correspondence') or []) if d.get('case')]
         cases = [c for c in cases if not c.get('timerk')]
     else:
-        cases = [gen_case(rng, i) for i in range(n)]
+        cases = [gen_group(rng, i) for i in range(n)]
     for i, c in enumerate(cases):
         c['cid'] = str(i)
+        for j, pc in enumerate(c.get('peers') or []):
+            pc['cid'] = f'{i}.p{j + 1}'
     disagreements, oracle_failures = [], []
     hist = collections.Counter()
     distinct = set()
@@ -406,17 +527,17 @@ def run(ctx):
         runs = []
         with quiet():
             for c in cases[lo:lo + CH]:
-                runs.append(Run(c).run())
+                runs += Run(c).run().members         # every timer of a group is a history of its own
         model = split_cases(run_driver('timer', '\n'.join(r.text() for r in runs) + '\n'))
         nontriv, lines_compared = compare_chunk(runs, model, disagreements, oracle_failures, hist, distinct, samples,
                                                 nontriv, lines_compared)
     cov = {
         'evaluations': len(cases),
         'distinct_nontrivial': nontriv,
-        'rule': 'seeded random stop/restart histories on the real Timer; non-trivial = distinct case with a call at an expiry '
+        'rule': 'seeded random stop/restart histories on the real Timer (40% of them next to 1-3 other timers with their own histories in the same Environment); non-trivial = distinct case with a call at an expiry '
                 'instant (before or after the wake), a call from the callback, or several calls at one instant',
         'samples': samples,
-        'histories_validated_against_impl': len(cases) - len(disagreements),
+        'histories_validated_against_impl': len(cases) - len({d['case']['cid'] for d in disagreements}),
         'action_lines_compared': lines_compared,
         'operation_histogram': dict(sorted(hist.items())),
     }
@@ -581,10 +702,27 @@ def run_timerk(ctx):
 def compare_chunk(runs, model, disagreements, oracle_failures, hist, distinct, samples, nontriv, lines_compared):
     for r in runs:
         c = r.case
+        top = r.lead.case                      # the whole group is the failing input / the replayable case
+        n_grp = len(r.lead.members)
+        label = '' if n_grp == 1 else (f'timer {r.idx + 1} of {n_grp} in one Environment'
+                                       f'{" (all with one callback function)" if top.get("shared_cb") else ""}: ')
         m = model.get(c['cid'])
         lines_compared += len(r.impl)
         st = collections.Counter()
         fails = oracle(r, st)
+        if n_grp > 1:
+            hist['timers in groups'] += 1
+            hist['groups'] += 1 if r.idx == 0 else 0
+            hist['groups with one shared callback'] += 1 if (r.idx == 0 and top.get('shared_cb')) else 0
+            if r.idx > 0:
+                hist['peer timers: created later than the first'] += 1 if c['dt'] != 0 else 0
+                hist['peer timers: fires'] += sum(1 for e in r.events if e[0] == 'fire')
+                mine = {bits(e[1]) for e in r.events if e[0] == 'fire'}
+                hist['peer timers: firing at an instant at which the first timer fires'] += \
+                    len(mine & {bits(e[1]) for e in r.lead.events if e[0] == 'fire'})
+                hist['peer timers: equal arguments'] += 1 if c['args'] == top['args'] else 0
+            hist['calls from another timer\'s callback'] += sum(1 for mm in r.lead.members if mm is not r for ops in mm.case['cb'] for op in ops
+                                                                if op[0].endswith('@') and op[-1] == r.idx)
         calls = [e for e in r.events if e[0] == 'call' and not e[4]]
         inst = collections.Counter(bits(e[1]) for e in calls)
         if any(v >= 2 for v in inst.values()):
@@ -598,29 +736,31 @@ def compare_chunk(runs, model, disagreements, oracle_failures, hist, distinct, s
         hist['timeout:dyadic' if float(c['timeout']) * 4 == int(float(c['timeout']) * 4) else 'timeout:arbitrary-float'] += 1
         n_intr = sum(1 for l in r.labels if l.startswith('intr '))
         hist['silent-interrupts-resolved-by-model'] += max(0, len(r.procs) - 1 - n_intr)
-        key = json.dumps({k: v for k, v in c.items() if k != 'cid'}, sort_keys=True)
+        key = json.dumps({k: v for k, v in top.items() if k != 'cid'}, sort_keys=True)
         nt = nontrivial(r, st)
-        if nt and key not in distinct:
-            nontriv += 1
-        distinct.add(key)
+        if r.idx == 0:
+            if nt and key not in distinct:
+                nontriv += 1
+            distinct.add(key)
         if r.impl != m:
             d = next((i for i in range(max(len(r.impl), len(m or []))) if i >= len(r.impl) or not m or i >= len(m) or r.impl[i] != m[i]), None)
             detail = 'length'
             if d is not None:
-                detail = (f'line {d} `{r.labels[d] if d < len(r.labels) else "<end>"}`: impl `{r.impl[d] if d < len(r.impl) else "<end>"}` '
+                detail = (f'{label}line {d} `{r.labels[d] if d < len(r.labels) else "<end>"}`: impl `{r.impl[d] if d < len(r.impl) else "<end>"}` '
                           f'model `{m[d] if m and d < len(m) else "<end>"}`')
             keep = len(disagreements) < 25
-            disagreements.append({'case': c, 'detail': detail, 'impl': r.impl[:200] if keep else [], 'model': (m or [])[:200] if keep else []})
+            disagreements.append({'case': top, 'detail': detail, 'impl': r.impl[:200] if keep else [], 'model': (m or [])[:200] if keep else []})
         seen_sig = set()
         for f in fails:
             if f['signature'] in seen_sig:
                 continue                       # one failure per signature and case
             seen_sig.add(f['signature'])
-            f['case'] = c
+            f['case'] = top
+            f['what'] = label + f['what']
             if len(oracle_failures) < 25:      # full traces only for the first few (the framework writes 5 replays)
                 f['trace'] = {'history': [list(map(str, e)) for e in r.events][:200], 'labels': r.labels[:200],
                               'impl': r.impl[:200]}
             oracle_failures.append(f)
         if len(samples) < 2 and nt and len(r.labels) > 6:
-            samples.append({'case': c, 'labels': r.labels[:40], 'implementation_answers': r.impl[:40]})
+            samples.append({'case': top, 'labels': r.labels[:40], 'implementation_answers': r.impl[:40]})
     return nontriv, lines_compared
